@@ -49,7 +49,54 @@ func VerifC14Prefix() {
 	if verifrt.Thorough() {
 		max = 8
 	}
-	text := verifrt.Bytes(verifrt.Len(max))
+	c14CheckPrefix(verifrt.Bytes(verifrt.Len(max)))
+}
+
+// VerifC14PrefixShapes: address-shaped texts longer than the free-string
+// bound: a lead from {"", "::", "::ffff:", "::FFFF:", "1::", "0:0:0:0:0:ffff:",
+// "64:ff9b::"}, a tail that is a dotted quad of arbitrary digits, "h:h" or "h"
+// with arbitrary hex digits, and optionally '/' with 0..3 arbitrary bytes.
+func VerifC14PrefixShapes() {
+	var b []byte
+	b = append(b, [...]string{"", "::", "::ffff:", "::FFFF:", "1::", "0:0:0:0:0:ffff:", "64:ff9b::"}[verifrt.Choice(7)]...)
+	switch verifrt.Choice(3) {
+	case 0:
+		for k := 0; k < 4; k++ {
+			if k > 0 {
+				b = append(b, '.')
+			}
+			b = c14Digits(b, 1, false)
+		}
+	case 1:
+		b = c14Digits(b, 1, verifrt.Thorough())
+		b = append(b, ':')
+		b = c14Digits(b, 1, verifrt.Thorough())
+	default:
+		b = c14Digits(b, 1, verifrt.Thorough())
+	}
+	if verifrt.Bool2() {
+		b = append(b, '/')
+		b = append(b, verifrt.Bytes(verifrt.Len(3))...)
+	}
+	c14CheckPrefix(b)
+}
+
+// c14Digits appends w arbitrary decimal (or hex) digits.
+func c14Digits(b []byte, w int, hex bool) []byte {
+	for i := 0; i < w; i++ {
+		c := verifrt.Byte()
+		if hex {
+			verifrt.Assume(c >= '0' && c <= '9' || c >= 'a' && c <= 'f' || c >= 'A' && c <= 'F')
+		} else {
+			verifrt.Assume(c >= '0' && c <= '9')
+		}
+		b = append(b, c)
+	}
+
+	return b
+}
+
+func c14CheckPrefix(text []byte) {
 	orig := string(text)
 	hasSlash := false
 	for i := 0; i < len(orig); i++ {
